@@ -186,7 +186,10 @@ def gen_config(rng, fam, out, i):
             prog += ["yield", str(rng.choice([5, 20, 60])), "map", "0"]
         k = (i * 7) % 260 if rng.random() < 0.7 else rng.choice([0, 1, 2, 3, 5, 400, 900])
         if rng.random() < 0.25:
-            aborter = (k, "abort")
+            # stop or abort from a second thread (stop: only for finite acquisitions of a client that registered no monitor
+            # reader - a reader that is not polled to the end blocks the source for good, see the client contract in DESIGN 15.5)
+            finite = not any(d["frames"] < 0 or d["trigger"] for d in streams)
+            aborter = (k, "stop" if (finite and "map" not in prog and rng.random() < 0.5) else "abort")
             prog += ["yield", str(k + rng.choice([0, 5, 30]))]
             prog += ["abort" if any(d["frames"] < 0 or d["trigger"] for d in streams) else rng.choice(["stop", "abort"])]
         else:
